@@ -193,6 +193,10 @@ def gen_scenario(rng, ops_range=(1, 25), w=None, raises=0.0, dup_in_create=0.0, 
     kindsw = [k for k in w for _ in range(int(w[k] * 2))]
     ops = []
     for _ in range(rng.randint(*ops_range)):
+        if reenter and rng.random() < 0.12:
+            # nested calls made while postponed callbacks are being released
+            enabled = not enabled
+            ops += [f'enable {int(enabled)}', 'snap']
         if forget and rng.random() < forget and (comp_objs or proc_objs):
             o = rng.choice(comp_objs + proc_objs)
             ops.append(f'forget {o}')
